@@ -1,7 +1,7 @@
 """Per-property claim texts for MANIFEST.json (kept next to the obligations registry)."""
 
 ENGINES = [
-    dict(name="jsym", path="jsym/", serves_properties=["C01", "C02", "C03", "C04", "C05", "C06", "C07", "C09", "C12", "C14", "C15", "C16", "C17", "C18", "C20"],
+    dict(name="jsym", path="jsym/", serves_properties=["C01", "C02", "C03", "C04", "C05", "C06", "C07", "C09", "C12", "C13", "C14", "C15", "C16", "C17", "C18", "C20"],
          kind_free_text="own concolic executor on z3: proxy objects for ints/reals/bools, every branch decided by the solver, replay-based DFS to exhaustion, prefix-sharded over 16 processes; real JADE code runs natively"),
 ]
 
@@ -96,5 +96,11 @@ CLAIMS["C16"] = dict(
     note=_HN + " Hook commands are model processes whose return code is a solver choice (0/1 for teardown-type hooks; a failing setup hook aborts by design and is outside the claim). Resubmission (teardown again, setup not again) is covered by C13's harness when built.",
     technique="bounded symbolic execution of the real code with z3 (jsym): solver-chosen hook configurations, return codes and schedules")
 
+CLAIMS["C13"] = dict(
+    text="K-closure: real resubmit_jobs._get_jobs_to_resubmit/_update_with_blocking_jobs on real config.json/results.json for all digraphs on 3 jobs (cycles included), every outcome mix (successful/failed/canceled/missing) and every flag combination: result = selected jobs plus reflexive-transitive dependants closure, rerun blockers = original blockers within the closure, the iteration-bound assertion never fires; Cluster.prepare_for_resubmission on real files recomputes counters and states. "
+    "H-resubmit: submissions run to completion in the world model (solver-chosen exit codes, cancel flags, optionally a lost batch), then `jade resubmit-jobs` with solver-chosen flags and the rerun to completion: jobs started afterwards = closure, each once, after their rerun blockers exited again; results of other jobs unchanged (name, return code, status, times); one entry per job again. On an incomplete submission (nobody / another host / another process on this host holding the submitter role): refused with exit code != 0, no crash, no lock left behind, jobs/results/counters/submitter role unchanged. A crash of the command must leave either the results or a released submitter role.",
+    note=_HN + " Outputs are produced without report generation (no events directory), the case the statement singles out; with-reports outputs are outside the bound of this check. The HPC job id column of preserved rows is not compared (the property lists name, return code, status and times).",
+    technique="bounded symbolic execution of the real code with z3 (jsym): solver-chosen DAGs, outcomes, flags and schedules")
+
 _TODO = "check not built yet in this session (planned in DESIGN.md section 6); not claimed until it exists"
-NOT_APPLICABLE = {p: _TODO for p in ["C08", "C10", "C11", "C13", "C19"]}
+NOT_APPLICABLE = {p: _TODO for p in ["C08", "C10", "C11", "C19"]}
